@@ -112,6 +112,20 @@ struct FInstr {
       if (name=="_ZdlPv"||name=="free"||name=="_ZdaPv"||name=="_ZdlPvm"||name=="_ZdaPvm"){ IRBuilder<> B(I); B.CreateCall(fnFree,{B.CreateBitCast(CB->getArgOperand(0), I8P)}); return; }
       if (name=="_ZNSo5writeEPKcl"){ IRBuilder<> B(I); B.CreateCall(fnOsWrite,{B.CreateBitCast(CB->getArgOperand(0),I8P), B.CreateBitCast(CB->getArgOperand(1),I8P), CB->getArgOperand(2)}); return; }
       if (name=="_ZNSi4readEPcl"){ IRBuilder<> B(I); Value *pos=B.CreateCall(fnIsPre,{B.CreateBitCast(CB->getArgOperand(0),I8P)}); IRBuilder<> A2(after(I)); A2.CreateCall(fnIsPost,{A2.CreateBitCast(CB->getArgOperand(0),I8P), A2.CreateBitCast(CB->getArgOperand(1),I8P), CB->getArgOperand(2), pos}); return; }
+      if ((name=="__muldc3"||name=="__divdc3") && isDD(CB->getType()) && CB->arg_size()==4){
+        // complex multiply / divide helpers of compiler-rt: model them over the reals
+        IRBuilder<> B(after(I)); Value *a=CB->getArgOperand(0),*b=CB->getArgOperand(1),*c=CB->getArgOperand(2),*d=CB->getArgOperand(3);
+        Value *sa=S(a),*sb=S(b),*sc=S(c),*sd=S(d);
+        auto bin=[&](int code,Value*s1,Value*s2,Value*v1,Value*v2,Value*r)->Value*{ return B.CreateCall(fnBin,{ConstantInt::get(I32,code),s1,s2,v1,v2,r}); };
+        Value *ac=B.CreateFMul(a,c),*bd=B.CreateFMul(b,d),*ad=B.CreateFMul(a,d),*bc=B.CreateFMul(b,c);
+        Value *sac=bin(3,sa,sc,a,c,ac),*sbd=bin(3,sb,sd,b,d,bd),*sad=bin(3,sa,sd,a,d,ad),*sbc=bin(3,sb,sc,b,c,bc);
+        Value *re,*im,*sre,*sim;
+        if (name=="__muldc3"){ re=B.CreateFSub(ac,bd); sre=bin(2,sac,sbd,ac,bd,re); im=B.CreateFAdd(ad,bc); sim=bin(1,sad,sbc,ad,bc,im); }
+        else { Value *cc=B.CreateFMul(c,c),*dd=B.CreateFMul(d,d); Value *scc=bin(3,sc,sc,c,c,cc),*sdd=bin(3,sd,sd,d,d,dd); Value *den=B.CreateFAdd(cc,dd); Value *sden=bin(1,scc,sdd,cc,dd,den);
+          Value *n1=B.CreateFAdd(ac,bd); Value *sn1=bin(1,sac,sbd,ac,bd,n1); Value *n2=B.CreateFSub(bc,ad); Value *sn2=bin(2,sbc,sad,bc,ad,n2);
+          re=B.CreateFDiv(n1,den); sre=bin(4,sn1,sden,n1,den,re); im=B.CreateFDiv(n2,den); sim=bin(4,sn2,sden,n2,den,im); }
+        sh2[I]={sre,sim};
+        return; }
       int mid = mathId(name);
       if (mid && isD(CB->getType())){
         IRBuilder<> B(after(I));
